@@ -17,7 +17,7 @@
 // stdout: lines starting with a lower-case keyword are operations (fed verbatim to the OCaml driver of
 // the model), lines starting with an upper-case letter are observations the model must reproduce byte
 // for byte, except 'T', 'G' and 'X' lines (PGN checks: implementation only, no model).
-//   pos <fenhex>     -> "E <code>"  |  "P <state>" , "R <readFEN(toFEN(p)) == p> <toFEN hex>" , "M <uci>:<short>:<long>:<ps>:<pl>:<pu> ..." (sorted by uci; "M -")
+//   pos <fenhex>     -> "E <code>"  |  "P <state>" , "R <readFEN(toFEN(p)) == p> <toFEN hex>" , "M <uci>:<short>:<long>:<ps>:<pl>:<pu>:<n|c<replies>> ..." (sorted by uci; "M -")
 //   stm <fenhex> ..  -> "E <code>"  |  "S f.t.p f.t.p ..."
 //   ucm ..           -> "V f.t.p ..."
 //   fen <hex>        -> "E <code>"  |  "P <state>"
@@ -147,7 +147,19 @@ static void doPos(std::ostream& out, const std::string& fen) {
         Move ps = TextIO::stringToMove(p1, sh);
         Move pl = TextIO::stringToMove(p2, lo);
         Move pu = TextIO::uciStringToMove(uci);
-        items.push_back(uci + ":" + sh + ":" + lo + ":" + mvNum(ps) + ":" + mvNum(pl) + ":" + mvNum(pu));
+        // the facts the check / mate suffix stands for, from make + MoveGen: "n" no check, "c<replies>" check
+        std::string ck = "n";
+        {
+            Position p3(pos);
+            UndoInfo ui;
+            p3.makeMove(m, ui);
+            if (MoveGen::inCheck(p3)) {
+                std::vector<Move> replies;
+                legalMoves(p3, replies);
+                ck = "c" + std::to_string(replies.size());
+            }
+        }
+        items.push_back(uci + ":" + sh + ":" + lo + ":" + mvNum(ps) + ":" + mvNum(pl) + ":" + mvNum(pu) + ":" + ck);
     }
     std::sort(items.begin(), items.end());
     out << "M";
